@@ -12,13 +12,13 @@ PLACEMENTS = {
     "statement_in_start": "vd :: fn do end\nstart :: fn do\n    x := CORE\n    pr(1)\nend\n",
     "unused_expression_statement": "vd :: fn do end\nstart :: fn do\n    CORE\n    pr(1)\nend\n",
     "trailing_expression": "vd :: fn do end\nf :: fn ->\n    CORE\nend\nstart :: fn do\n    f()\n    pr(1)\nend\n",
-    "closure_body": "vd :: fn do end\nstart :: fn do\n    c :: fn do\n        y := CORE\n    end\n    c()\nend\n",
-    "if_branch": "vd :: fn do end\nstart :: fn do\n    if 1 < 2 do\n        y := CORE\n    end\nend\n",
-    "else_branch": "vd :: fn do end\nstart :: fn do\n    if 1 < 2 do\n        pr(1)\n    else\n        y := CORE\n    end\nend\n",
+    "closure_body": "vd :: fn do end\nstart :: fn do\n    c :: fn do\n        y := CORE\n        pr(0)\n    end\n    c()\nend\n",
+    "if_branch": "vd :: fn do end\nstart :: fn do\n    if 1 < 2 do\n        y := CORE\n    end\n    pr(0)\nend\n",
+    "else_branch": "vd :: fn do end\nstart :: fn do\n    if 1 < 2 do\n        pr(1)\n    else\n        y := CORE\n    end\n    pr(0)\nend\n",
     "loop_body": "vd :: fn do end\nstart :: fn do\n    loop 1 < 2 do\n        y := CORE\n        break\n    end\nend\n",
     "call_argument": "vd :: fn do end\nstart :: fn do\n    pr(CORE)\nend\n",
-    "case_arm": "vd :: fn do end\nEn :: enum\n    A int,\n    B,\nend\nstart :: fn do\n    case En.A 1 do\n        A v ->\n            y := CORE\n        end\n        else pr(2) end\n    end\nend\n",
-    "nested_closure_in_if_in_loop": "vd :: fn do end\nstart :: fn do\n    loop 1 < 2 do\n        if 1 < 2 do\n            c :: fn do\n                y := CORE\n            end\n            c()\n        end\n        break\n    end\nend\n",
+    "case_arm": "vd :: fn do end\nEn :: enum\n    A int,\n    B,\nend\nstart :: fn do\n    case En.A 1 do\n        A v ->\n            y := CORE\n        end\n        else pr(2) end\n    end\n    pr(0)\nend\n",
+    "nested_closure_in_if_in_loop": "vd :: fn do end\nstart :: fn do\n    loop 1 < 2 do\n        if 1 < 2 do\n            c :: fn do\n                y := CORE\n                pr(0)\n            end\n            c()\n        end\n        break\n    end\nend\n",
 }
 NUM = ["int", "float"]
 
@@ -160,6 +160,14 @@ STMT_CORES.update({
     "generic_result_variables_swapped": ("pq: (Ty__1, Ty__2) = pair(1, \"s\")", HOF, lambda S, I: z3.Not(z3.And(I("ty1", "str"), I("ty2", "int")))),
     "generic_result_variable_used_as_operand": ("au :: ap(tos, 1) + __lit1", HOF, lambda S, I: z3.Not(I("lit1", "str"))),
 })
+_not_int = lambda S, I: z3.Not(I("lit1", "int"))
+STMT_CORES.update({
+    # an early `ret` of the wrong type inside the block's TRAILING if / case expression (another branch ends in a value of the right type)
+    "early_return_in_trailing_if_expression": ("pr(er1(true))", "er1 :: fn c: bool -> int do\n    if c do\n        ret __lit1\n    else\n        2\n    end\nend\n", _not_int),
+    "early_return_in_trailing_case_expression": ("pr(er2(Ev.A 1))", "Ev :: enum\n    A int,\n    B,\nend\ner2 :: fn e: Ev -> int do\n    case e do\n        A v ->\n            ret __lit1\n        end\n        else\n            3\n        end\n    end\nend\n", _not_int),
+    "early_return_in_nested_trailing_blocks": ("pr(er3(true))", "er3 :: fn c: bool -> int do\n    do\n        if c do\n            if c do\n                ret __lit1\n            else\n                1\n            end\n        else\n            2\n        end\n    end\nend\n", _not_int),
+    "early_return_in_trailing_if_of_an_inferred_function": ("ei: int = er4(true)", "er4 :: fn c ->\n    if c do\n        ret __lit1\n    else\n        2\n    end\nend\n", _not_int),
+})
 _differ = lambda S, I: z3.Not(z3.Or([z3.And(I("lit1", k), I("lit2", k)) for k in S["lit1"][1]]))
 STMT_CORES.update({
     # one type node at several positions of both sides, crossed: (p, q, p) against (k1, x, x) compares p with x in the last position
@@ -169,7 +177,8 @@ STMT_CORES.update({
     "crossed_function_types": ("fh: fn *X, *Y -> *Y = fn a: __lit1kind, b: __lit2kind -> __lit2kind do ret b end", "", None),
 })
 del STMT_CORES["crossed_function_types"]
-GENERIC_LITS = {"crossed_shared_components_in_assignment": ["int", "str", "bool"], "crossed_shared_components_in_list": ["int", "str", "bool"], "crossed_shared_components_in_call": ["int", "str", "bool"],
+GENERIC_LITS = {"early_return_in_trailing_if_expression": ["int", "str", "bool", "float"], "early_return_in_trailing_case_expression": ["int", "str", "bool"], "early_return_in_nested_trailing_blocks": ["int", "str", "bool"], "early_return_in_trailing_if_of_an_inferred_function": ["int", "str", "bool"],
+                "crossed_shared_components_in_assignment": ["int", "str", "bool"], "crossed_shared_components_in_list": ["int", "str", "bool"], "crossed_shared_components_in_call": ["int", "str", "bool"],
                 "generic_argument_variable_shared_with_a_function_parameter": ["int", "str", "bool"], "generic_result_variable_used_as_operand": ["int", "str", "float"],
                 "compound_sub_between_aliases": ["int", "float", "str", "bool"], "compound_mul_after_comparison": ["int", "str", "bool"], "compound_sub_on_blob_field": ["int", "str", "bool"], "compound_add_between_aliases": ["int", "str", "bool"],
                 "generic_tuple_local_not_returned": ["int", "float", "str", "bool"], "generic_inner_closure_and_outer_parameter": ["int", "str", "bool"], "operand_through_self": ["int", "str", "float"],
@@ -191,7 +200,7 @@ CORES["binop_nested"] = (CORES["binop_nested"][0], "", spec_binop_nested, {})
 CORES["void_in_variable"] = (CORES["void_in_variable"][0], "", spec_void_var, {})
 
 # cores whose mismatch table is written for the literal kinds listed in GENERIC_LITS only (tuples and lists have element-wise rules of their own): same kinds in both tiers
-SPEC_KINDS_FIXED = {"crossed_shared_components_in_assignment", "crossed_shared_components_in_list", "crossed_shared_components_in_call", "generic_argument_variable_shared_with_a_function_parameter", "generic_result_variable_used_as_operand", "generic_tuple_result_unused_call", "generic_tuple_result_in_tuple_literal", "generic_tuple_result_trailing_in_closure", "generic_tuple_negation_unused_call", "generic_tuple_negation_stored",
+SPEC_KINDS_FIXED = {"early_return_in_trailing_if_expression", "early_return_in_trailing_case_expression", "early_return_in_nested_trailing_blocks", "early_return_in_trailing_if_of_an_inferred_function", "crossed_shared_components_in_assignment", "crossed_shared_components_in_list", "crossed_shared_components_in_call", "generic_argument_variable_shared_with_a_function_parameter", "generic_result_variable_used_as_operand", "generic_tuple_result_unused_call", "generic_tuple_result_in_tuple_literal", "generic_tuple_result_trailing_in_closure", "generic_tuple_negation_unused_call", "generic_tuple_negation_stored",
                     "compound_sub_between_aliases", "compound_mul_after_comparison", "compound_sub_on_blob_field", "compound_add_between_aliases", "generic_tuple_local_not_returned",
                     "generic_inner_closure_and_outer_parameter", "operand_through_self", "void_inside_tuple_literal", "void_inside_list_literal"}
 _CTX = {}
